@@ -394,13 +394,9 @@ func opWfnScan(r *hx.Run, old string, s srcV) {
 	before := w
 	out := hx.Guard(func() string {
 		if err := w.Scan(s.v); err != nil {
-			switch {
-			case w == before:
-				r.Count("wfn-scan:receiver-after-error:unchanged")
-			case w == (cpe.WFN{}):
-				r.Count("wfn-scan:receiver-after-error:zeroed")
-			default:
-				r.Count("wfn-scan:receiver-after-error:partial")
+			if w != before {
+				// no partial mutation (repaired defect): a rejected source leaves the receiver alone
+				r.Fail("", fmt.Sprintf("cpe.WFN.Scan(%T %s) failed and changed its receiver from %q to %q", s.v, s.wire, before.String(), w.BindFS()))
 			}
 			return "err"
 		}
